@@ -9,15 +9,76 @@ VARIABLES Wd,     \* the current projected world
           l
 Rec == ndJsonDeserialize(IOEnv.TRACE)
 
+\* Layer R: the sector lifecycle model (Sectors.tla), instantiated with the same policy numbers
+LC == INSTANCE Sectors WITH D <- D, W <- W_, PartSize <- PartSize, FaultMaxAge <- FaultMaxAge,
+                           FaultCutoff <- FaultCutoff, MinLife <- MinLife, MaxLife <- MaxLife, PostedPartsMax <- 3,
+                           SM <- Wd, epoch <- l, last <- G
+
+
 MinerNames(w) == {w.miners[i].m : i \in Idx(w.miners)}
 MinerOf(w, m) == w.miners[CHOOSE i \in Idx(w.miners) : w.miners[i].m = m]
 Dep0Sum(w, g) == BSumSeq([i \in Idx(w.miners) |-> g.dep0[w.miners[i].m]])
 
-Chk(prop, name, holds, tag, e) == IF holds THEN TRUE ELSE PrintT(<<"VIOL", prop, name, l, tag, e.ev>>)
+\* ---- projection of a real miner state onto the lifecycle model's state
+StOf(pt, n) == IF n \in T_(pt) THEN "term" ELSE IF n \in U_(pt) THEN "unproven" ELSE IF n \in R_(pt) THEN "recovering"
+               ELSE IF n \in F_(pt) THEN "faulty" ELSE "active"
+DueOf(pt, n) == LET c == {i \in Idx(pt.q) : n \in SeqSet(pt.q[i].on) \cup SeqSet(pt.q[i].early)} IN
+                IF c = {} THEN 0 ELSE pt.q[CHOOSE i \in c : TRUE].e
+ProjSM(M) ==
+  LET tb == Tb(M)
+      place == [n \in UNION {S_(PartAt(M, dp)) : dp \in Parts(M)} |-> CHOOSE dp \in Parts(M) : n \in S_(PartAt(M, dp))]
+      rec(n) == LET dp == place[n] pt == PartAt(M, dp) st == StOf(pt, n) IN
+                [st |-> st, d |-> dp[1] - 1, p |-> dp[2] - 1,
+                 exp |-> IF st = "term" \/ n \notin tb.nos THEN 0 ELSE tb.exp[n],
+                 \* a faulty sector's own fault expiry is not recorded; its queue epoch stands for it
+                 fexp |-> IF st \in {"faulty", "recovering"} THEN DueOf(pt, n) ELSE 0]
+  IN  [sec |-> [n \in DOMAIN place |-> rec(n)],
+       posted |-> [d \in 0..(D - 1) |-> SeqSet(M.dls[d + 1].posted)],
+       alloc |-> SeqSet(M.alloc), off |-> M.pps, cron |-> M.cronActive]
+AbsReal(M) == LET sm == ProjSM(M) tb == Tb(M) IN
+  [sec |-> [n \in DOMAIN sm.sec |-> [st |-> sm.sec[n].st, d |-> sm.sec[n].d, p |-> sm.sec[n].p, exp |-> sm.sec[n].exp,
+                                      due |-> IF sm.sec[n].st = "term" THEN 0
+                                              ELSE DueOf(PartAt(M, <<sm.sec[n].d + 1, sm.sec[n].p + 1>>), n)]],
+   posted |-> sm.posted, alloc |-> sm.alloc, cron |-> sm.cron]
 
 \* a failed UpdatePledgeTotal whose requested delta would have kept the ADJUSTED total non-negative
 \* is the known consequence of finding F1
-PledgeFails(e) == {i \in Idx(e.fails) : e.ev # "Tick" /\ e.fails[i].to = "power" /\ e.fails[i].method = 6}
+PledgeFails(e) == {i \in Idx(e.fails) : e.ev # "Tick" /\ e.fails[i].to = "f04" /\ e.fails[i].method = 6}
+Role(M, c) == IF c = "owner" \/ c = "worker" THEN c ELSE "other"
+ToSets(decls) == [i \in Idx(decls) |-> [d |-> decls[i].dl, p |-> decls[i].p, s |-> SeqSet(decls[i].s)]]
+ToSetsX(decls) == [i \in Idx(decls) |-> [d |-> decls[i].dl, p |-> decls[i].p, s |-> SeqSet(decls[i].s), exp |-> decls[i].exp]]
+\* the lifecycle model's verdict for a user call on miner M at epoch ep
+ModelCall(M, e, ep) ==
+  LET sm == ProjSM(M) c == Role(M, e.c) IN
+  CASE e.ev = "CommitNI" -> LC!CommitNI(sm, c, [i \in Idx(e.sectors) |-> e.sectors[i].n], e.dl,
+                                        [i \in Idx(e.sectors) |-> e.sectors[i].exp], e.requireAll, ep)
+    [] e.ev = "PoSt" -> LC!PoSt(sm, c, e.dl, [i \in Idx(e.parts) |-> [i |-> e.parts[i].i, skipped |-> SeqSet(e.parts[i].skipped)]],
+                                ~e.badProof, ep)
+    [] e.ev = "DeclareFaults" -> LC!DeclareFaults(sm, c, ToSets(e.decls), ep)
+    [] e.ev = "DeclareRecovered" -> LC!DeclareRecovered(sm, c, ToSets(e.decls), ep)
+    [] e.ev = "Terminate" -> LC!Terminate(sm, c, ToSets(e.decls), ep)
+    [] e.ev = "Extend" -> LC!Extend(sm, c, ToSetsX(e.decls), ep)
+Modelled == {"CommitNI", "PoSt", "DeclareFaults", "DeclareRecovered", "Terminate", "Extend"}
+\* Layer R for one event: the modelled calls must be explained by the lifecycle model; ticks must be explained
+\* for every miner; everything else is outside the lifecycle model (money, control, pre-commit path)
+ExplainedR(pre, e) ==
+  IF e.ev \in Modelled /\ e.m \in G.lost THEN TRUE    \* a miner without a power claim cannot do anything (see F1)
+  \* a call that aborted because UpdatePledgeTotal refused the (short) network total is finding F1, reported
+  \* under C03 PledgeTotalNeverBlocks; the lifecycle model has no money
+  ELSE IF e.ev \in Modelled /\ ~e.ok /\ PledgeFails(e) # {} THEN TRUE
+  \* while a consensus fault is active the miner may neither commit sectors nor declare recoveries
+  ELSE IF e.ev \in {"CommitNI", "DeclareRecovered"} /\ pre.epoch <= MinerByName(pre, e.m).cfElapsed THEN
+       ~e.ok /\ AbsReal(MinerByName(e.st, e.m)) = AbsReal(MinerByName(pre, e.m))
+  ELSE IF e.ev \in Modelled THEN
+       LET r == ModelCall(MinerByName(pre, e.m), e, pre.epoch) IN
+       r.ok = e.ok /\ LC!Abs(r.SM) = AbsReal(MinerByName(e.st, e.m))
+  ELSE IF e.ev = "Tick" THEN
+       \A i \in Idx(e.st.miners) : e.st.miners[i].m \in G'.lost \/
+          LC!Abs(LC!TickN(ProjSM(MinerByName(pre, e.st.miners[i].m)), pre.epoch, e.n)) = AbsReal(e.st.miners[i])
+  ELSE TRUE
+
+Chk(prop, name, holds, tag, e) == IF holds THEN TRUE ELSE PrintT(<<"VIOL", prop, name, l, tag, e.ev>>)
+
 F1Explains(w, g, delta) == ~BIsNeg(BAdd(BAdd(w.power.pledge, Dep0Sum(w, g)), delta))
 CronFailTag(w, g, e) ==
   IF \A i \in Idx(e.fails) : \E j \in Idx(e.fails[i].f) :
@@ -49,40 +110,57 @@ TStep ==
   /\ LET e == Rec[l] IN
      IF e.ev \in {"Init", "Reset"}
      THEN /\ Wd' = e.st
+          /\ \A i \in Idx(e.st.miners) :
+                MinerChecks(e.st.miners[i], [dep0 |-> [m \in MinerNames(e.st) |-> MinerOf(e.st, m).locked]], [ev |-> e.ev, ok |-> TRUE])
           /\ G' = [dep0 |-> [m \in MinerNames(e.st) |-> MinerOf(e.st, m).locked],
-                   fresh |-> [m \in MinerNames(e.st) |-> FALSE]]
+                   fresh |-> [m \in MinerNames(e.st) |-> FALSE], lost |-> {}]
      ELSE /\ Wd' = e.st
           \* fresh[m]: the recorded deadline has been refreshed by a proving-deadline callback since the
           \* miner's cron became active (it goes stale while the cron is inactive: finding F2)
           /\ G' = [G EXCEPT !.fresh = [m \in DOMAIN G.fresh |->
                       LET M1 == MinerOf(Wd, m) M2 == MinerOf(e.st, m) IN
-                      M2.cronActive /\ (G.fresh[m] \/ M2.pps # M1.pps)]]
-          /\ \A i \in Idx(e.st.miners) : MinerChecks(e.st.miners[i], G, e)
-          /\ Chk("C02", "PowerIsActive", PowerIsActive(e.st), "-", e)
+                      M2.cronActive /\ (G.fresh[m] \/ M2.pps # M1.pps)],
+                           \* miners whose claim the power actor deleted after a failed callback (consequence of F1,
+                           \* reported once by CronNeverFails): their schedule/power formulas are moot afterwards
+                           !.lost = @ \cup (IF e.ev = "Tick" THEN UNION {{e.fails[i].f[j].to : j \in {k \in Idx(e.fails[i].f) : e.fails[i].f[k].method = 12}} : i \in Idx(e.fails)} ELSE {})]
+          \* structural formulas are re-evaluated only for miners whose projected state changed
+          /\ \A i \in Idx(e.st.miners) : (i <= Len(Wd.miners) /\ Wd.miners[i] = e.st.miners[i]) \/ MinerChecks(e.st.miners[i], G, e)
+          /\ Chk("C02", "PowerIsActive", PowerIsActiveExcept(e.st, G'.lost), "-", e)
           /\ Chk("C02", "TotalsOK", TotalsOK(e.st), "-", e)
           /\ Chk("C03", "NetPledgeTotal", NetPledgeLiteral(e.st),
                  IF NetPledgeAdjusted(e.st, Dep0Sum(e.st, G)) THEN "F1-creation-deposit" ELSE "-", e)
           /\ Chk("C03", "NetPledgeNonNeg", NetPledgeNonNeg(e.st), "-", e)
           /\ Chk("C03", "PledgeTotalNeverBlocks", PledgeFails(e) = {},
                  IF \A i \in PledgeFails(e) : F1Explains(Wd, G, e.fails[i].delta) THEN "F1-creation-deposit" ELSE "-", e)
-          /\ Chk("C05", "CronScheduled", CronScheduled(e.st), "-", e)
+          /\ Chk("C05", "CronScheduled", CronScheduledExcept(e.st, G'.lost), "-", e)
           /\ Chk("C05", "DeadlineCurrent", e.ev # "Tick" \/ DeadlineCurrent(e.st),
-                 IF \A i \in Idx(e.st.miners) : (DeadlineCurrentFor(e.st, e.st.miners[i]) \/ ~G'.fresh[e.st.miners[i].m])
+                 IF \A i \in Idx(e.st.miners) : (DeadlineCurrentFor(e.st, e.st.miners[i]) \/ ~G'.fresh[e.st.miners[i].m] \/ e.st.miners[i].m \in G'.lost)
                  THEN "F2-no-cron-before-first-precommit" ELSE "-", e)
           /\ Chk("C05", "QueueNotStale", e.ev # "Tick" \/ QueueNotStale(e.st), "-", e)
-          /\ Chk("C05", "NoOverdueExpiry", e.ev # "Tick" \/ NoOverdueExpiry(e.st), "-", e)
+          /\ Chk("C05", "NoOverdueExpiry", e.ev # "Tick" \/ NoOverdueExpiryExcept(e.st, G'.lost), "-", e)
           /\ Chk("C05", "EarlyTermsScheduled", EarlyTermsScheduled(e.st), "-", e)
           /\ Chk("C05", "CronNeverFails", e.ev # "Tick" \/ e.cronOK \/ OnlyInjected(e), IF e.ev = "Tick" THEN CronFailTag(Wd, G, e) ELSE "-", e)
           /\ Chk("C05", "NoBalanceInvariantBroken", e.ev = "Tick" \/ e.code # 1000, "-", e)
           /\ Chk("C05", "NoPanic", e.ev = "Tick" \/ e.class # "panic", "-", e)
           /\ Chk("C14", "VestShape", VestShape(e.st), "-", e)
+          /\ Chk("C14", "RewardVestsOnSchedule", RewardVestsOnSchedule(Wd, e), "-", e)
+          /\ Chk("C14", "NoEarlyUnlock", NoEarlyUnlock(Wd, e), "-", e)
+          /\ Chk("C14", "WithdrawBounded", WithdrawBounded(Wd, e), "-", e)
+          /\ Chk("C15", "DebtBlocks", DebtBlocks(e), "-", e)
+          /\ Chk("C15", "BurnMonotone", BurnMonotone(Wd, e), "-", e)
+          /\ Chk("C15", "NoFlowFromBurn", NoFlowFromBurn(e), "-", e)
+          /\ Chk("C15", "ConsensusFaultPaid", ConsensusFaultPaid(Wd, e), "-", e)
+          /\ Chk("C15", "TerminationFeeFloor", TerminationFeeFloor(Wd, e), "-", e)
+          /\ Chk("C15", "ContinuedFaultCharged", ContinuedFaultCharged(Wd, e, G.lost), "-", e)
+          /\ Chk("C15", "DisputePenalised", DisputePenalised(Wd, e), "-", e)
+          /\ (IF ExplainedR(Wd, e) THEN TRUE ELSE PrintT(<<"DRIFT", "C02", l, e.ev, e.ok>>))
           /\ Chk("C01", "TotalFilConstant", BEq(e.st.total, Wd.total), "-", e)
           /\ Chk("C01", "LedgerDelta", IF e.ok THEN LedgerDelta(Wd.bals, e.st.bals, e.tr)
                                              ELSE LedgerUnchanged(Wd.bals, e.st.bals), "-", e)
           /\ Chk("C01", "NoNegativeBalance", NoNegativeBalance(e.st.bals), "-", e)
           /\ Chk("C01", "RewardNeverFails", e.ev # "Reward" \/ e.ok, "-", e)
 
-TInit == Wd = [epoch |-> 0] /\ G = [dep0 |-> <<>>, fresh |-> <<>>] /\ l = 1
+TInit == Wd = [epoch |-> 0] /\ G = [dep0 |-> <<>>, fresh |-> <<>>, lost |-> {}] /\ l = 1
 TSpec == TInit /\ [][TStep]_<<Wd, G, l>>
 Accepted == TLCGet("stats").diameter = Len(Rec) + 1
 =============================================================================
